@@ -163,7 +163,7 @@ public:
 		return *this;
 	}
 	constexpr value<fbits>& operator=(unsigned long rhs) {
-		*this = static_cast<long long>(rhs);
+		*this = static_cast<unsigned long long>(rhs);
 		return *this;
 	}
 	constexpr value<fbits>& operator=(unsigned long long rhs) {
